@@ -3,7 +3,7 @@
    SaveUnknown / false / NameUnknown / CoUnknown / SnUnknown / LkUnknown / MkUnknown, which breaks C19_facts_pinned /
    C19_object_facts_pinned / C19_life_facts_pinned. *)
 From CacheFS Require Import CacheKeys CacheFS CacheCodec CacheObject CacheLife.
-Definition gen_cache_facts : cache_facts := mkCacheFacts SaveReplaceOpen true true NameReprEsc.
+Definition gen_cache_facts : cache_facts := mkCacheFacts SaveTempReplace true true NameReprEsc.
 Definition gen_cache_object : cache_object_kind := CoStateless.
 Definition gen_save_name : save_name_kind := SnFinal.
 Definition gen_lookup : lookup_kind := LkExists.
